@@ -37,6 +37,18 @@ import numpy as np
 from . import _n_word_max
 
 #%% 
+def int_list_array(vals, **kwargs):
+    """
+    Array of a (nested) list of python integers. Numpy stores integers beyond the int64 range as uint64 or,
+    when they are mixed with smaller ones, as inexact float64 values: such lists are kept as python objects.
+    """
+    arr = np.array(vals, **kwargs)
+    if arr.dtype.kind in 'uf' and arr.size > 0:
+        obj = np.array(vals, dtype=object)
+        if all(isinstance(v, (int, np.integer)) and not isinstance(v, (bool, np.bool_)) for v in obj.flat):
+            arr = obj
+    return arr
+
 def array_support(func):
     def iterator(*args, **kwargs):
         if isinstance(args[0], (list, np.ndarray)) and np.asarray(args[0]).ndim > 0:
@@ -45,7 +57,7 @@ def array_support(func):
                 vals.append(iterator(v, *args[1:], **kwargs))
 
             if isinstance(args[0], np.ndarray):
-                vals = np.array(vals)
+                vals = int_list_array(vals)
             return vals
         else:
             return func(*args, **kwargs)
@@ -54,6 +66,8 @@ def array_support(func):
 #%%
 @array_support
 def twos_complement_repr(val, nbits):
+    if isinstance(val, np.integer):
+        val = int(val)      # (numpy integers can not hold 1 << nbits for words of 63 bits and more)
     if val < 0:
         val = (1 << nbits) + val
     else:
@@ -484,7 +498,7 @@ def int_array(x):
         x = np.array(x)
 
     if x.dtype != complex:
-        x = np.array(list(map(int, x.flatten()))).reshape(x.shape)
+        x = int_list_array(list(map(int, x.flatten()))).reshape(x.shape)
     else:
         x_real = np.vectorize(lambda v: v.real)(x)
         x_imag = np.vectorize(lambda v: v.imag)(x)
